@@ -617,9 +617,24 @@ func (e *engine) reportPanics() {
 		if len(small) < len(rec.b) {
 			note = "shrunk from: " + rec.note
 		}
-		c := Case{Kind: "bytes", Parser: rec.parser, Hex: small, Note: fmt.Sprintf("%s (%d panicking inputs this run)", note, rec.n), Culprits: rec.culprits}
+		c := Case{Kind: "bytes", Parser: rec.parser, Hex: small, Note: note, Culprits: rec.culprits}
 		e.r.Count("panic_signatures", 1)
-		e.r.Guard("C09:"+rec.parser, c, func() { p.fn(small) })
+		// the class of absent fields that trigger the panic is part of the signature: a new
+		// unconditional dereference in the same function is a different finding
+		prefix := "C09:" + rec.parser
+		if len(rec.culprits) > 0 {
+			set := map[string]bool{}
+			for k := range rec.culprits {
+				set[k[strings.LastIndexByte(k, '.')+1:]] = true
+			}
+			names := []string{}
+			for k := range set {
+				names = append(names, k)
+			}
+			sort.Strings(names)
+			prefix += "[missing=" + strings.Join(names, ",") + "]"
+		}
+		e.r.Guard(prefix, c, func() { p.fn(small) })
 	}
 }
 
@@ -702,7 +717,11 @@ func codecOf(typ string) *codec {
 func roundTrip(r *mon.Run, cd *codec, x interface{}, producible bool, c Case, l lcnt) {
 	var b []byte
 	var err error
-	if r.Guard("C09:"+cd.mName, c, func() { b, err = cd.marshal(x) }) {
+	kind := "fixedpoint"
+	if producible {
+		kind = "roundtrip"
+	}
+	if r.Guard("C09:"+kind+":"+cd.mName, c, func() { b, err = cd.marshal(x) }) {
 		return
 	}
 	if err != nil || b == nil {
@@ -714,12 +733,8 @@ func roundTrip(r *mon.Run, cd *codec, x interface{}, producible bool, c Case, l 
 		return
 	}
 	var y interface{}
-	if r.Guard("C09:"+cd.uName, c, func() { y, err = cd.unmarshal(b) }) {
+	if r.Guard("C09:"+kind+":"+cd.uName, c, func() { y, err = cd.unmarshal(b) }) {
 		return
-	}
-	kind := "fixedpoint"
-	if producible {
-		kind = "roundtrip"
 	}
 	if err != nil || y == nil {
 		r.Violation("C09:"+kind+":"+cd.typ+":unmarshal-failed", fmt.Sprintf("%s does not read back the output of %s: err=%v nil=%v", cd.uName, cd.mName, err, y == nil), c)
@@ -734,7 +749,7 @@ func roundTrip(r *mon.Run, cd *codec, x interface{}, producible bool, c Case, l 
 		}
 	}
 	var b2 []byte
-	if r.Guard("C09:"+cd.mName, c, func() { b2, err = cd.marshal(y) }) {
+	if r.Guard("C09:fixedpoint:"+cd.mName, c, func() { b2, err = cd.marshal(y) }) {
 		return
 	}
 	if err != nil || b2 == nil {
@@ -742,7 +757,7 @@ func roundTrip(r *mon.Run, cd *codec, x interface{}, producible bool, c Case, l 
 		return
 	}
 	var y2 interface{}
-	if r.Guard("C09:"+cd.uName, c, func() { y2, err = cd.unmarshal(b2) }) {
+	if r.Guard("C09:fixedpoint:"+cd.uName, c, func() { y2, err = cd.unmarshal(b2) }) {
 		return
 	}
 	if err != nil || y2 == nil {
